@@ -645,6 +645,10 @@ MODEL_READY = True
 def to_model(case, obs):
     if not MODEL_READY or not isinstance(obs, dict) or obs.get("error"):
         return None
+    bad = [r for r in obs.get("oracle", []) if "pairs" not in r]
+    if bad:
+        # the recorder of the assignment solver's answers failed: the model would silently fall back to its own choice
+        raise RuntimeError("solver answers could not be recorded: " + repr(bad[:1]))
     o = case.get("opts", {})
     f, t = _docs(case, obs)
     # `via: csv`: a CSV table is a list (rows) of lists (cells) of strings, all three built with the same options as
